@@ -312,7 +312,8 @@ class C07(PropertyCheck):
         "route_in_range", "route_adjacent", "route_shape_ctl", "route_shape_swp", "route_passthrough",
         "route_concat", "route_append", "route_total", "circuit_passthrough_order", "circuit_in_range",
         "circuit_adjacent", "route_den_gate", "route_den", "adjacent_gates_eq_linear",
-        "adjacent_gates_refuses_measurement", "C07_counterexample_range_old", "C07_counterexample_roles_old",
+        "adjacent_gates_refuses_measurement", "swapLaws_C", "swapLaws_C_full", "route_den_gate_C", "route_den_C",
+        "C07_counterexample_range_old", "C07_counterexample_roles_old",
         "C07_counterexample_arg_old", "C07_counterexample_meas_old")]
     technique = ("Lean 4 proof (closed form of the routing loop by induction, permutation tracking, monoid-level "
                  "conjugation argument) + exhaustive model/implementation correspondence on gate lists")
@@ -326,7 +327,8 @@ class C07(PropertyCheck):
                   "(four counter-example theorems, each confirmed on the real code). The model is tied to the code by an "
                   "exhaustive comparison of gate lists for N <= 14 (quick) / 40 (thorough).")
     level_note = ("Trusted: Lean kernel (axioms propext, Classical.choice, Quot.sound); the harness py/props/c07.py; the "
-                  "instantiation of SwapLaws for Circuit.den over C (embed_perm) is supplied centrally, not here.")
+                  "instantiation of SwapLaws for the complex gate matrices is Lemmas/RouteC.lean (route_den_C: no hypothesis about "
+                  "matrices left).")
     trusted_base = [
         "Lean 4.33 kernel; axioms propext, Classical.choice, Quot.sound",
         "py/props/c07.py (harness: gate objects -> (name, controls, targets, arg label, extra label))",
